@@ -52,7 +52,7 @@ PN = [2, None]
 _cache = {}
 
 
-def run_schedule(kind, progs, schedule=None, rng=None, prefix=(), max_steps=100000):
+def run_schedule(kind, progs, schedule=None, rng=None, prefix=(), max_steps=500):
     """run the implementation under a schedule (given, or first-enabled after `prefix`, or random);
     returns (schedule, views, enabled sets, run object)"""
     try:
@@ -87,6 +87,8 @@ def run_schedule(kind, progs, schedule=None, rng=None, prefix=(), max_steps=1000
             views.append(r.view())
             i += 1
         deadlock = (not r.all_done()) and not r.enabled_tids() and (schedule is None or i >= len(schedule))
+        if schedule is None and i >= max_steps and not r.all_done():
+            views.append(Err(5, "the run did not finish within %d steps (livelock)" % max_steps))
     finally:
         errors = [(w.tid, repr(w.error)) for w in r.sched.workers if w.error is not None]
         r.close()
@@ -141,15 +143,26 @@ def cases(ctx):
         configs += [[W1, W0, R], [W1, W1b, WR], [W1, W0, RID], [W0, W0, W0, R], [W1, WR, PN, R]]
     total = 0
     scopes = []
+    nbad = [0]
     for ci, progs in enumerate(configs):
         kind = ci % 2
         cap = ctx.n(400, 1500)
         n = 0
+        bad = 0
         for sched, views, info in all_schedules(kind, progs, cap):
             case = [kind, progs, sched]
             _cache[repr(case)] = (views, info)
             n += 1
             yield "exhaustive", case
+            # a broken implementation makes every run long (livelock / leaked blocked threads): once a few
+            # schedules of this configuration already violate the property, move on
+            if oracle(ctx, "exhaustive", case, views):
+                bad += 1
+                nbad[0] += 1
+                if bad >= 3:
+                    break
+        if nbad[0] >= 9:
+            break
         scopes.append(f"{n}{'+' if n >= cap else ''} schedules of {len(progs)} threads {progs}")
         total += n
     ctx.notes["exhaustive"] = True
@@ -160,6 +173,10 @@ def cases(ctx):
         case = [i % 2, progs, sched]
         _cache[repr(case)] = (views, info)
         yield "random", case
+        if nbad[0] >= 9 and oracle(ctx, "random", case, views):
+            nbad[0] += 1
+            if nbad[0] >= 15:
+                break
 
 
 def in_model(kind, case):
@@ -217,7 +234,7 @@ def oracle(ctx, kind, case, out):
     reads = {}
     for i, v in enumerate(out):
         if isinstance(v, Err):
-            fail("schedule could not be replayed: " + v.text, i)
+            fail(("livelock: " if v.code == 5 else "schedule could not be replayed: ") + v.text, i)
             return F
         lock, wtxn, wevent, waiters, setev, ids, readers, newest, pcs, enabled, failed = v[:11]
         codes = [p[0] for p in pcs]
@@ -246,6 +263,15 @@ def oracle(ctx, kind, case, out):
         # nobody is stuck
         if not all(c == 20 for c in codes) and not any(enabled):
             fail("deadlock: unfinished threads and no step enabled", i, pcs=pcs)
+            return F
+        # the wake-up token and every queued event belong to a writer that is really waiting on it
+        waited = {p[1] for p in pcs if p[0] in (1, 2, 4, 5) and len(p) > 1 and p[1] is not None}
+        if wevent is not None and wevent not in waited:
+            fail("lost wake-up: _write_event is an event no writer waits on", i, event=wevent)
+            return F
+        stale = [e for e in waiters if e not in waited]
+        if stale:
+            fail("stale event in _write_waiters: no writer waits on it (its wake-up will be lost)", i, events=stale)
             return F
         # a free zone with waiters must have woken one of them
         if wtxn is None and waiters and wevent is None and lock is None:
